@@ -15,9 +15,13 @@ pub mod c07;
 pub mod c08;
 pub mod c09;
 pub mod c10;
+pub mod c11;
+pub mod c12;
 pub mod c13;
+pub mod c14;
 pub mod c15;
 pub mod c16;
+pub mod c17;
 pub mod c18;
 pub mod c19;
 pub mod c20;
@@ -43,9 +47,13 @@ pub fn registry() -> Vec<CheckDef> {
         c08::def(),
         c09::def(),
         c10::def(),
+        c11::def(),
+        c12::def(),
         c13::def(),
+        c14::def(),
         c15::def(),
         c16::def(),
+        c17::def(),
         c18::def(),
         c19::def(),
         c20::def(),
